@@ -266,6 +266,7 @@ DriftClause(s, e) ==
      nowait: synchronous read_nowait(n) with result                            *)
 Apply(s, e) ==
     IF ~Legal(s, e) THEN [s |-> s, bad |-> "IllegalStimulus", drift |-> ""]
+    ELSE IF "serr" \in DOMAIN e /\ e.serr # "" THEN [s |-> s, bad |-> "StimulusRaised", drift |-> ""]
     ELSE IF e.ev = "nowait" THEN
         LET before == [s EXCEPT !.op = "nowait", !.n = e.n]
             avail == Len(s.pend)
